@@ -54,6 +54,7 @@ def run(ck):
                     "conversions stores a value in the range for all inputs (interval analysis with exact case splits and order facts; f64 assumes mont_red_*'s range)")
     from . import repr_range
     repr_range.run_rule(ck, prog, fields=("f62", "f64"))
+    exp_bits_rule(ck, prog)
     ck.control("an even number is not accepted as a proved prime", not numth.lucas_prime_proof(2**64 - 2**32 + 2))
 
 
@@ -455,3 +456,39 @@ def _is_computed(f, g, op, at):
                     if ll is not None:
                         st.append((ll, (ds.b, ds.i)))
     return False
+
+
+def exp_bits_rule(ck, prog):
+    """EXPBITS: square-and-multiply consumes the whole exponent. The generic `exp_vartime` (and every field's own `exp`) must run until the
+    exponent is exhausted or over the bit width of the exponent TYPE; a scan whose length is taken from a constant of the field
+    (MODULUS_BITS, TWO_ADICITY, ELEMENT_BYTES) silently drops the high bits of the exponent in every field whose exponent type is wider
+    than its modulus — the 62-bit field with its u64 exponents (seed C07-M: x^e computed as x^(e mod 2^62))."""
+    ck.rule("EXPBITS", "no loop of an exponentiation routine is bounded by a constant of the field (the exponent type decides how many bits are scanned)")
+    from ..flow import flow
+    from ..cfg import reach, T as _T, S as _S
+    FIELD_CONSTS = ("::MODULUS_BITS", "::TWO_ADICITY", "::ELEMENT_BYTES", "::MODULUS")
+    fns = [f for f in prog.fns.values() if f.crate == "winter_math" and f.blocks and f.get("kind") != "closure" and "::tests::" not in f.nname
+           and f.nname.split("::")[-1] in ("exp", "exp_vartime", "exp_acc")]
+    n = 0
+    for f in fns:
+        g = flow(f)
+        loops = 0
+        bad = []
+        for b in range(len(f.blocks)):
+            t = f.term(b)
+            if t["k"] != "switch" or (b, _S) not in reach(f, [(b, _T)], include_starts=False):
+                continue
+            loops += 1
+            w = g.walk(ops=[t["d"]], at=(b, _T), through=lambda tt: True)
+            ks = [k for k in g.consts_in(w) if str(k).endswith(FIELD_CONSTS)]
+            if ks:
+                bad.append((b, ks))
+        if not loops:
+            continue
+        n += 1
+        ck.saw(f)
+        ck.ob("EXPBITS", f"{f.nname}", not bad,
+              f"{f.nname.split('::')[-1]}: the loop runs on the exponent (or a fixed trip count), not on a constant of the field", loc=f.loc(),
+              detail=None if not bad else f"a loop condition depends on {sorted(set(str(k).split('::')[-1] for _, ks in bad for k in ks))}: exponent bits above that "
+                                          "position are never examined")
+    ck.floor("EXPBITS: exponentiation routines with loops", n, 2)
